@@ -1217,3 +1217,9 @@ M("c02_extend_zeroed_sets_len_before_zeroing", ["C02"], ["C02.R3"], [
             }
 
             impl<T: $trait, A: BumpAllocatorTyped> PrivateVecExt for BumpVec<T, A> {""")], tier="thorough")
+
+M("c06_zst_drain_double_drop_revert", ["C06"], ["C06.R5"], [
+    ("src/owned_slice/drain.rs", """                let drop_len = iter.len();
+                mem::forget(iter);
+""", """                let drop_len = iter.len();
+""")])
